@@ -156,8 +156,10 @@ func NewConn(t Transport, opts *Options) *Conn {
 		c.abortTimeout = 100 * time.Millisecond
 	}
 	c.tasks.Add(1)
+	verifSync(c, "task-add")
 	go func() {
 		abortErr := c.receive(c.bgctx)
+		verifSync(c, "task-done")
 		c.tasks.Done()
 
 		c.mu.Lock()
@@ -186,6 +188,7 @@ func (c *Conn) Bootstrap(ctx context.Context) *capnp.Client {
 		return capnp.ErrorClient(disconnected("connection closed"))
 	}
 	defer c.tasks.Done()
+	defer verifSync(c, "task-done")
 	q := c.newQuestion(capnp.Method{})
 	bootCtx, cancel := context.WithCancel(ctx)
 	bc, cp := capnp.NewPromisedClient(bootstrapClient{
@@ -209,8 +212,10 @@ func (c *Conn) Bootstrap(ctx context.Context) *capnp.Client {
 		return capnp.ErrorClient(annotate(err).errorf("bootstrap"))
 	}
 	c.tasks.Add(1)
+	verifSync(c, "task-add")
 	go func() {
 		defer c.tasks.Done()
+		defer verifSync(c, "task-done")
 		q.handleCancel(bootCtx)
 	}()
 	c.mu.Unlock()
@@ -274,6 +279,7 @@ func (c *Conn) shutdown(abortErr error) error {
 
 	// Cancel all work.
 	c.bgcancel()
+	verifSync(c, "bg-cancel")
 	for _, a := range c.answers {
 		if a != nil && a.cancel != nil {
 			a.cancel()
@@ -283,6 +289,7 @@ func (c *Conn) shutdown(abortErr error) error {
 	// Wait for work to stop.
 	c.mu.Unlock()
 	c.tasks.Wait()
+	verifSync(c, "tasks-waited")
 	c.mu.Lock()
 
 	// Clear all tables, releasing exported clients and unfinished answers.
@@ -344,6 +351,7 @@ func (c *Conn) shutdown(abortErr error) error {
 		cancel()
 	}
 closeTransport:
+	verifSync(c, "tclose")
 	if err := c.transport.Close(); err != nil {
 		return errorf("close transport: %v", err)
 	}
@@ -624,6 +632,7 @@ func (c *Conn) handleCall(ctx context.Context, call rpccp.Call, releaseCall capn
 			return errorf("incoming call: unknown export ID %d", id)
 		}
 		c.tasks.Add(1) // will be finished by answer.Return
+		verifSync(c, "task-add")
 		var callCtx context.Context
 		callCtx, ans.cancel = context.WithCancel(c.bgctx)
 		c.unlockSender()
@@ -707,6 +716,7 @@ func (c *Conn) handleCall(ctx context.Context, call rpccp.Call, releaseCall capn
 				tgt = tgtAns.resultCapTable[iface.Capability()]
 			}
 			c.tasks.Add(1) // will be finished by answer.Return
+			verifSync(c, "task-add")
 			var callCtx context.Context
 			callCtx, ans.cancel = context.WithCancel(c.bgctx)
 			c.unlockSender()
@@ -725,6 +735,7 @@ func (c *Conn) handleCall(ctx context.Context, call rpccp.Call, releaseCall capn
 			callCtx, ans.cancel = context.WithCancel(c.bgctx)
 			tgt := tgtAns.pcall
 			c.tasks.Add(1) // will be finished by answer.Return
+			verifSync(c, "task-add")
 			c.unlockSender()
 			c.mu.Unlock()
 			pcall := tgt.PipelineRecv(callCtx, p.target.transform, capnp.Recv{
@@ -1322,6 +1333,7 @@ func (c *Conn) startTask() bool {
 		return false
 	default:
 		c.tasks.Add(1)
+		verifSync(c, "task-add")
 		return true
 	}
 }
@@ -1385,6 +1397,7 @@ func (c *Conn) tryLockSender(ctx context.Context) error {
 		c.mu.Lock()
 	}
 	c.sendCond = make(chan struct{})
+	verifSync(c, "snd-acq")
 	return nil
 }
 
@@ -1401,10 +1414,12 @@ func (c *Conn) lockSender() {
 		c.mu.Lock()
 	}
 	c.sendCond = make(chan struct{})
+	verifSync(c, "snd-acq")
 }
 
 // unlockSender releases the sender lock.  The caller must be holding c.mu.
 func (c *Conn) unlockSender() {
+	verifSync(c, "snd-rel")
 	close(c.sendCond)
 	c.sendCond = nil
 }
